@@ -259,6 +259,41 @@ class DmxWire:
         elif isinstance(tgt, (ast.Tuple, ast.List)) and isinstance(val, (ast.Tuple, ast.List)) and len(tgt.elts) == len(val.elts):
             for t, v in zip(tgt.elts, val.elts):
                 self.bind(t, v)
+        elif isinstance(tgt, (ast.Tuple, ast.List)) and isinstance(val, ast.Call) and isinstance(val.func, ast.Name) and len(val.args) == 1 and isinstance(val.args[0], ast.Name) \
+                and val.args[0].id in self.ex.cfg.values and val.func.id in {q for q, fl in self.ex.mod.all_funcs().items() if '.' not in q and len(fl) == 1}:
+            # `a, b = _helper(version)`: a module-level helper whose if-chain on its parameter returns tuples of constants is decided by the configuration
+            hfn = self.ex.mod.func(val.func.id)
+            hps = [a.arg for a in hfn.args.args]
+            if len(hps) == 1:
+                had = hps[0] in self.ex.cfg.values
+                old_v = self.ex.cfg.values.get(hps[0])
+                self.ex.cfg.values[hps[0]] = self.ex.cfg.values[val.args[0].id]
+                try:
+                    def _run(stmts: List[ast.stmt]) -> Optional[ast.AST]:
+                        for h_ in stmts:
+                            if isinstance(h_, ast.Expr) and isinstance(h_.value, ast.Constant):
+                                continue
+                            if isinstance(h_, ast.Return):
+                                return h_.value
+                            if isinstance(h_, ast.If):
+                                t_ = self.ex.ev(h_.test)
+                                if t_ is UNKNOWN:
+                                    return None
+                                r_ = _run(h_.body if t_ else h_.orelse)
+                                if r_ is not None:
+                                    return r_
+                                continue
+                            return None
+                        return None
+                    ret_ = _run(hfn.body)
+                finally:
+                    if had:
+                        self.ex.cfg.values[hps[0]] = old_v
+                    else:
+                        self.ex.cfg.values.pop(hps[0], None)
+                if isinstance(ret_, (ast.Tuple, ast.List)) and len(ret_.elts) == len(tgt.elts):
+                    for t, v in zip(tgt.elts, ret_.elts):
+                        self.bind(t, v)
         elif isinstance(tgt, (ast.Tuple, ast.List)) and len(tgt.elts) == 1 and isinstance(tgt.elts[0], ast.Name) and isinstance(val, ast.Call) \
                 and dotted(val.func) == 'binformat.struct_read' and tgt.elts[0].id in self.read_sizes:
             self.env[tgt.elts[0].id] = 'VAR'          # `[n] = struct_read(...)` where n is later the argument of `<stream>.read(n)`: a length taken from the file
@@ -705,6 +740,42 @@ def run(ctx: Any, prog: Program) -> None:
             ind_var = [n for n in fmt_names if n != size_var][0]
             w.stmt(st)
             return w.env.get(size_var) or None, w.env.get(ind_var) or None
+        # the same selection in a module-level helper: `size_fmt, ind_fmt = _formats(version)` whose if-chain on its parameter returns pairs
+        for st in fn.body:
+            if not (isinstance(st, ast.Assign) and len(st.targets) == 1 and isinstance(st.targets[0], ast.Tuple) and len(st.targets[0].elts) == 2 and all(isinstance(e, ast.Name) for e in st.targets[0].elts)
+                    and isinstance(st.value, ast.Call) and isinstance(st.value.func, ast.Name) and len(st.value.args) == 1 and dotted(st.value.args[0]) == 'version'):
+                continue
+            try:
+                hfn = dmx.func(st.value.func.id)
+            except AnalysisError:
+                continue
+            hp = hfn.args.args[0].arg if hfn.args.args else None
+            opf_ = {ast.Lt: lambda a, b: a < b, ast.LtE: lambda a, b: a <= b, ast.Gt: lambda a, b: a > b, ast.GtE: lambda a, b: a >= b, ast.Eq: lambda a, b: a == b, ast.NotEq: lambda a, b: a != b}
+
+            def _run(stmts: List[ast.stmt]) -> Optional[ast.AST]:
+                for h_ in stmts:
+                    if isinstance(h_, ast.Expr) and isinstance(h_.value, ast.Constant):
+                        continue
+                    if isinstance(h_, ast.Return):
+                        return h_.value
+                    if isinstance(h_, ast.If) and isinstance(h_.test, ast.Compare) and len(h_.test.ops) == 1 and isinstance(h_.test.left, ast.Name) and h_.test.left.id == hp \
+                            and isinstance(h_.test.comparators[0], ast.Constant) and type(h_.test.ops[0]) in opf_:
+                        r_ = _run(h_.body if opf_[type(h_.test.ops[0])](version, h_.test.comparators[0].value) else h_.orelse)
+                        if r_ is not None:
+                            return r_
+                        continue
+                    raise AnalysisError(f'{st.value.func.id}: statement `{U(h_)[:50]}` of the string-table format helper is not understood')
+                return None
+            ret_ = _run(hfn.body)
+            if not (isinstance(ret_, ast.Tuple) and len(ret_.elts) == 2 and all(isinstance(e, ast.Constant) for e in ret_.elts)):
+                raise AnalysisError(f'{st.value.func.id}: does not return a pair of constant formats for version {version}')
+            names2 = [e.id for e in st.targets[0].elts]
+            uses_ = {nm: sum(1 for c in ast.walk(fn) if isinstance(c, ast.Call) and c.args and isinstance(c.args[0], ast.Name) and c.args[0].id == nm) for nm in names2}
+            sizes_ = [n for n in names2 if uses_[n] == 1 and uses_[[m for m in names2 if m != n][0]] > 1]
+            if len(sizes_) != 1:
+                continue
+            vals2 = dict(zip(names2, [e.value for e in ret_.elts]))
+            return vals2[sizes_[0]] or None, vals2[[n for n in names2 if n != sizes_[0]][0]] or None
         raise AnalysisError('string-table format selection not found')
     for v in range(0, 6):
         r, w_ = table(pb, v), table(eb, v)
